@@ -64,7 +64,9 @@ type runtime struct {
 	random       func() float64
 	labels       []string
 	stackLimit   int
-	evalDepth    int // direct evals in progress (they enter no scope of their own)
+	evalDepth    int         // direct evals in progress (they enter no scope of their own)
+	halting      bool        // an Interrupt function panicked with haltValue: the script must not intercept it
+	haltValue    interface{} // the value it panicked with
 	traceLimit   int
 	lck          sync.Mutex
 	verif        verifRT
@@ -72,6 +74,10 @@ type runtime struct {
 
 func (rt *runtime) enterScope(scop *scope) {
 	scop.outer = rt.scope
+	if rt.scope == nil {
+		// Entering from rest: whatever halted an earlier execution is over.
+		rt.halting, rt.haltValue = false, nil
+	}
 	if rt.scope != nil {
 		if rt.stackLimit != 0 && rt.scope.depth+1 >= rt.stackLimit {
 			panic(rt.panicRangeError("Maximum call stack size exceeded"))
@@ -117,6 +123,40 @@ func (rt *runtime) putValue(reference referencer, value Value) {
 	}
 }
 
+// runInterrupt runs a function received from the Interrupt channel. If it
+// panics with anything that is not a JavaScript exception, the script is being
+// halted: that panic must unwind the whole execution, no try/catch/finally of
+// the script may intercept it (see tryCatchEvaluate), whatever its Go type.
+func (rt *runtime) runInterrupt(fn func()) {
+	defer func() {
+		if caught := recover(); caught != nil {
+			switch caught.(type) {
+			case *exception, *Error, ottoError, Value:
+				// A JavaScript exception thrown from Go: ordinary propagation.
+			default:
+				rt.halting, rt.haltValue = true, caught
+			}
+			panic(caught)
+		}
+	}()
+	rt.halting, rt.haltValue = false, nil
+	fn()
+}
+
+// isHaltPanic reports whether caught is the panic of the Interrupt function
+// that is halting the script.
+func (rt *runtime) isHaltPanic(caught interface{}) (same bool) {
+	if !rt.halting {
+		return false
+	}
+	defer func() {
+		if recover() != nil {
+			same = true // values of an uncomparable type: there is only one halt in flight
+		}
+	}()
+	return caught == rt.haltValue
+}
+
 func (rt *runtime) tryCatchEvaluate(inner func() Value) (tryValue Value, isException bool) { //nolint:nonamedreturns
 	// resultValue = The value of the block (e.g. the last statement)
 	// throw = Something was thrown
@@ -125,6 +165,9 @@ func (rt *runtime) tryCatchEvaluate(inner func() Value) (tryValue Value, isExcep
 	// Otherwise, some sort of unknown panic happened, we'll just propagate it.
 	defer func() {
 		if caught := recover(); caught != nil {
+			if rt.isHaltPanic(caught) {
+				panic(caught)
+			}
 			if excep, ok := caught.(*exception); ok {
 				caught = excep.eject()
 			}
